@@ -80,6 +80,12 @@ PRED = {
     "deep-or-long": lambda c: True,   # refined by thresholds below
     # c12_reset_line_panics_above / _partial: tab.len() * indent overflows u16 exactly from indent 32768 on
     "indent-32768": lambda c: bracket_depth(c["src"]) >= 32768,
+    # C12-H3: at least 10 named arguments whose value opens a parenthesis (`x:(`), nested
+    "nested-named-args": lambda c: len(re.findall(r"[A-Za-z_][A-Za-z_0-9]*:\(", c["src"])) >= 10 and bracket_depth(c["src"]) >= 10,
+    # C12-H4: at least 10 unclosed `(`, each behind an operator that also has a prefix form (+ - * == .. and the alias `=`)
+    "unclosed-after-prefix-operator": lambda c: c["src"].count("(") - c["src"].count(")") >= 10 and len(re.findall(r"(?:\+|-|\*|==|(?<![=!<>~])=|\.\.|:)\s*\(", c["src"])) >= 10,
+    # C12-N13: a relation literal (array of tuples) with a row that is not a tuple
+    "relation-literal-row": lambda c: re.search(r"\[[^\]]*\{[^\]]*\}\s*,\s*[^{\s][^\]]*\]|\[\s*[^{\s\]][^\]]*,\s*\{", (c.get("prog") or "") + " " + c["src"], re.S) is not None,
 }
 
 
@@ -288,6 +294,24 @@ def json_take_correspondence(ck, model_ok):
                          {"ranges": sq, "src": reqs[i]["src"], "entry": "json_rq", "model": str(m), "impl": str(got), "kind": "correspondence"})
 
 
+def probe_confirmed(ck, reqs, cap_ms):
+    """probe; a request without answer within the cap, or slower than the polynomial allowance, is probed a second
+    time with four times the cap and little parallelism (the machine is shared: a loaded machine must not turn into
+    a hang report).  An input whose cost is exponential stays without answer."""
+    answers = probe(reqs, cap_ms=cap_ms)
+    again = []
+    for i, (r, a) in enumerate(zip(reqs, answers)):
+        n = len(r["src"].encode("utf-8", "replace"))
+        if isinstance(a, dict) and ("hang" in a or a.get("ms", 0) > 3000 + 0.01 * n * n):
+            again.append(i)
+    if again:
+        ck.stat("probe-retry", "second-look", len(again))
+        second = probe([reqs[i] for i in again], cap_ms=cap_ms * 4, shards=4)
+        for i, a in zip(again, second):
+            answers[i] = a
+    return answers
+
+
 # ----------------------------------------------------------------------------- run
 def run():
     ck = Check("C12", level="proof")
@@ -361,6 +385,10 @@ def run():
     # replays of the findings fixed since b55902d (H1 H2 N5 N6 N7; a recurrence is a VIOLATION) and of the open C12-N12
     cases += CR.directed_cases(ck)
 
+    # replays of the open hang findings H3 / H4: own cap, no second look
+    hang_cases = CR.open_hang_cases()
+    hang_answers = probe([{k: v for k, v in c.items() if k in ("entry", "src", "stack_mb", "target")} for c in hang_cases], cap_ms=ck.n(6000, 20000))
+
     # 4. PL / RQ JSON: originals, single mutations, raw documents
     pl = harness("pl", [{"src": p} for p in progs])
     rq = harness("rq", [{"src": p} for p in progs])
@@ -379,7 +407,8 @@ def run():
 
     reqs = [{k: v for k, v in c.items() if k in ("entry", "src", "stack_mb", "target")} for c in cases]
     cap_ms = ck.n(15000, 40000)
-    answers = probe(reqs, cap_ms=cap_ms)
+    answers = probe_confirmed(ck, reqs, cap_ms) + hang_answers
+    cases += hang_cases
     slow = []
     for c, a in zip(cases, answers):
         c["answer"] = a
@@ -424,7 +453,7 @@ def run():
             for k in (1, 2, 4):
                 greqs.append({"entry": e, "src": mk(base_n * k), "stack_mb": 64, **({"target": "sql.generic"} if e == "compile" else {})})
                 gmeta.append((fam, k, e))
-    gans = probe(greqs, cap_ms=ck.n(20000, 60000))
+    gans = probe_confirmed(ck, greqs, ck.n(20000, 60000))
     times = {}
     for (fam, k, e), a, rq_ in zip(gmeta, gans, greqs):
         ck.count("growth", "%s:%s:%d" % (e, fam, base_n * k))
